@@ -206,15 +206,28 @@ func runC02(c c02Case) kit.Result {
 			if err := check("QueryIdsC", ids2, count2, err); err != nil {
 				return err
 			}
+			// a compiled query can be executed again (callers page through results with one query object)
+			ids2b, count2b, err := store.QueryIdsC(tx, pq)
+			if err := check("QueryIdsC (second execution of the same compiled query)", ids2b, count2b, err); err != nil {
+				return err
+			}
 			// explicit cursor provider over all ids (tree-backed set instead of the bolt bucket cursor)
 			pq3, _ := ast.Parse(store, text)
 			ids3, count3, err := store.QueryWithCursorC(tx, func(tx *bbolt.Tx, forward bool) ast.SetCursor {
 				if len(c.Data.People) == 0 {
 					return ast.NewEmptyCursor()
 				}
+				// ids are added in a scrambled order and some twice: the set itself has to order and de-duplicate
 				set := ast.NewTreeSet(forward)
-				for _, p := range c.Data.People {
-					set.Add([]byte(p.ID))
+				n := len(c.Data.People)
+				for i := 0; i < n; i++ {
+					set.Add([]byte(c.Data.People[(i*5+3)%n].ID))
+				}
+				for i := 0; i < n; i += 2 {
+					set.Add([]byte(c.Data.People[i].ID))
+				}
+				for i := 0; i < n; i++ {
+					set.Add([]byte(c.Data.People[i].ID))
 				}
 				return set.ToCursor()
 			}, pq3)
